@@ -7,6 +7,7 @@ import (
 	"sort"
 	"strings"
 
+	"github.com/go-kid/ioc/app"
 	"github.com/go-kid/ioc/util/vsync"
 
 	"verif/internal/envx"
@@ -14,6 +15,7 @@ import (
 
 // RT is the runtime of one execution: everything harness objects need to talk to the explorer.
 type RT struct {
+	App     *app.App // the container of this execution (for programmatic lookups from callbacks)
 	Ch      *envx.Chooser
 	Log     []string
 	Faults  bool     // fault points are choice points (kind 'F')
